@@ -18,6 +18,7 @@ package main
 // Part 1 (direct, overlapping reload calls, porcupine) runs inside pkg/authentication/basic (harness_basic/).
 
 import (
+	"crypto/sha1"
 	"runtime"
 	"encoding/base64"
 	"encoding/json"
@@ -302,6 +303,113 @@ func c20EventStorm(run *vfRun, w *vfWorld, span time.Duration) {
 	wg.Wait()
 }
 
+// c20ConfigMapAndLarge (own instance, next to the rounds): (a) both files are reached the way Kubernetes mounts a ConfigMap /
+// Secret — <dir>/<file> -> ..data/<file>, ..data -> ..<version>/ — and updated by swapping the ..data link and removing
+// the old version directory: every new version, and the one after it, must come into force; (b) a version larger than
+// 1 MiB (30 000 entries) must be loaded completely: its LAST entry is valid, and so is the version after it.
+func c20ConfigMapAndLarge(run *vfRun, w *vfWorld) {
+	dir := filepath.Join(w.Dir, "cm")
+	_ = os.MkdirAll(dir, 0o755)
+	writeVersion := func(v int) error {
+		vd := filepath.Join(dir, fmt.Sprintf("..v%d", v))
+		if err := os.MkdirAll(vd, 0o755); err != nil {
+			return err
+		}
+		if err := os.WriteFile(filepath.Join(vd, "htpasswd"), []byte(c20Htpasswd(v)), 0o600); err != nil {
+			return err
+		}
+		return os.WriteFile(filepath.Join(vd, "emails"), []byte(c20Emails(v)), 0o600)
+	}
+	swap := func(v int) error {
+		tmp := filepath.Join(dir, "..data_tmp")
+		_ = os.Remove(tmp)
+		if err := os.Symlink(fmt.Sprintf("..v%d", v), tmp); err != nil {
+			return err
+		}
+		return os.Rename(tmp, filepath.Join(dir, "..data"))
+	}
+	if writeVersion(1) != nil || swap(1) != nil || os.Symlink("..data/htpasswd", filepath.Join(dir, "htpasswd")) != nil || os.Symlink("..data/emails", filepath.Join(dir, "emails")) != nil {
+		run.Inconclusive("rig: ConfigMap layout could not be created")
+		return
+	}
+	p, err := w.NewProxy("--htpasswd-file="+filepath.Join(dir, "htpasswd"), "--authenticated-emails-file="+filepath.Join(dir, "emails"), "--email-domain=nomatch.invalid")
+	if err != nil {
+		run.Inconclusive("rig: ConfigMap instance: " + vfTrunc(err.Error(), 60))
+		return
+	}
+	visible := map[string]func(v int) bool{
+		"htpasswd": func(v int) bool { return p.P.basicAuthValidator.Validate("vuser", "pw-"+strconv.Itoa(v)) },
+		"emails":   func(v int) bool { return p.P.Validator(fmt.Sprintf("vuser-%d@example.com", v)) },
+	}
+	wait := func(f func() bool) bool {
+		for tries := 0; tries < 1000; tries++ { // up to ~5 s
+			if f() {
+				return true
+			}
+			time.Sleep(5 * time.Millisecond)
+		}
+		return false
+	}
+	prev := 1
+	for _, v := range []int{2, 4, 5} {
+		if writeVersion(v) != nil || swap(v) != nil {
+			run.Inconclusive("rig: ConfigMap swap failed")
+			return
+		}
+		_ = os.RemoveAll(filepath.Join(dir, fmt.Sprintf("..v%d", prev)))
+		prev = v
+		for name, vis := range visible {
+			run.Eval(fmt.Sprintf("%s|ConfigMap layout (symlink swap)|version %d", name, v))
+			if !wait(func() bool { return vis(v) }) {
+				run.Violation("c20:symlinked-file-never-reloaded", fmt.Sprintf("%s reached through a ConfigMap-style symlink: after the ..data link was swapped to version %d (old version directory removed) the new contents never came into force (5 s)", name, v),
+					map[string]interface{}{"flags": p.Flags, "file": name, "version": v})
+				return
+			}
+			run.Count(name+"_configmap_swaps_loaded", 1)
+		}
+	}
+	// (b) large versions, plain files on a second instance
+	htp := filepath.Join(w.Dir, "htpasswd-large")
+	emf := filepath.Join(w.Dir, "emails-large")
+	_ = os.WriteFile(htp, []byte(c20Htpasswd(1)), 0o600)
+	_ = os.WriteFile(emf, []byte(c20Emails(1)), 0o600)
+	p2, err := w.NewProxy("--htpasswd-file="+htp, "--authenticated-emails-file="+emf, "--email-domain=nomatch.invalid")
+	if err != nil {
+		run.Inconclusive("rig: large-file instance: " + vfTrunc(err.Error(), 60))
+		return
+	}
+	var hb, eb strings.Builder
+	hb.WriteString("always:" + c20SHAOf("always-pw") + "\n")
+	eb.WriteString("always@example.com\n")
+	for i := 0; i < 30000; i++ {
+		fmt.Fprintf(&hb, "large-user-%05d:%s\n", i, c20SHAOf("x"))
+		fmt.Fprintf(&eb, "large-user-%05d-with-a-long-local-part@example.com\n", i)
+	}
+	hb.WriteString("zz-last:" + c20SHAOf("last-pw") + "\n")
+	eb.WriteString("zz-last@example.com\n")
+	_ = c20WriteFile(htp, hb.String(), 9001)
+	_ = c20WriteFile(emf, eb.String(), 9001)
+	run.Count("large_version_bytes_htpasswd", int64(hb.Len()))
+	run.Count("large_version_bytes_emails", int64(eb.Len()))
+	for name, f := range map[string]func() bool{
+		"htpasswd": func() bool { return p2.P.basicAuthValidator.Validate("zz-last", "last-pw") && p2.P.basicAuthValidator.Validate("large-user-29999", "x") },
+		"emails":   func() bool { return p2.P.Validator("zz-last@example.com") && p2.P.Validator("large-user-29999-with-a-long-local-part@example.com") },
+	} {
+		run.Eval(fmt.Sprintf("%s|version larger than 1 MiB|complete", name))
+		if !wait(f) {
+			run.Violation("c20:large-version-not-loaded-completely", fmt.Sprintf("%s: a well-formed version of more than 1 MiB (30 002 entries) was installed; 5 s later its last entries are not valid (version truncated or refused)", name),
+				map[string]interface{}{"flags": p2.Flags, "file": name})
+		} else {
+			run.Count(name+"_large_version_loaded", 1)
+		}
+	}
+}
+
+func c20SHAOf(pw string) string {
+	h := sha1.Sum([]byte(pw))
+	return "{SHA}" + base64.StdEncoding.EncodeToString(h[:])
+}
+
 func TestVerif_C20(t *testing.T) {
 	run := vfNewRun(t, "C20", "exploration")
 	c20Watch(run)
@@ -311,7 +419,11 @@ func TestVerif_C20(t *testing.T) {
 	w := vfNewWorld(t)
 	defer w.Close()
 	stormDone := make(chan struct{})
-	go func() { defer close(stormDone); c20EventStorm(run, w, time.Duration(run.Env.Pick(25, 90))*time.Second) }()
+	go func() {
+		defer close(stormDone)
+		c20ConfigMapAndLarge(run, w)
+		c20EventStorm(run, w, time.Duration(run.Env.Pick(25, 90))*time.Second)
+	}()
 	rounds := run.Env.Pick(3, 20)
 	for r := 0; r < rounds; r++ {
 		nVal := []int{2, 4, 8, 16}[(r+int(run.Env.Seed))%4]
